@@ -223,7 +223,7 @@ mod v_wire_cksum {
 
     // ================================================================== (a) the routine itself
 
-    // @harness props=C08 cfg=KW tier=q to=120 mem=4 unwind=8 opts=nomem covers=1 funcs=wire::checksum::data;wire::checksum::combine;wire::Ipv4Packet::verify_checksum bounds=concrete_vectors:_RFC_1071_worked_example,_published_IPv4_header,_odd_length,_UDP/IPv4_and_ICMPv6_packets
+    // @harness props=C08 cfg=KW tier=q to=120 mem=4 unwind=12 opts=nomem covers=1 funcs=wire::checksum::data;wire::checksum::combine;wire::Ipv4Packet::verify_checksum bounds=concrete_vectors:_RFC_1071_worked_example,_published_IPv4_header,_odd_length,_UDP/IPv4_and_ICMPv6_packets
     #[kani::proof]
     pub(crate) fn cksum_ref_selfcheck() {
         // RFC 1071 section 3 worked example: 0001 f203 f4f5 f6f7 -> 2ddf0 -> ddf2
@@ -595,10 +595,10 @@ mod v_wire_cksum {
         kani::cover!(be16(buf[10], buf[11]) == 0x0000, "emitted header checksum 0000");
     }
 
-    // @harness props=C08 cfg=KW tier=q to=600 mem=4 unwind=8 opts=nomem covers=1 funcs=wire::Ipv4Repr::emit;wire::Ipv4Packet::fill_checksum bounds=source_and_destination_address_symbolic_(4_words),_rest_fixed
+    // @harness props=C08 cfg=KW tier=q to=600 mem=4 unwind=8 opts=nomem covers=1 funcs=wire::Ipv4Repr::emit;wire::Ipv4Packet::fill_checksum bounds=source_address_and_destination_bytes_0..2_symbolic_(3_words),_rest_fixed
     #[kani::proof]
     pub(crate) fn emit_valid_ipv4_w1() {
-        emit_valid_ipv4(0x0ff);
+        emit_valid_ipv4(0x03f);
     }
 
     // @harness props=C08 cfg=KW tier=q to=600 mem=4 unwind=8 opts=nomem covers=1 funcs=wire::Ipv4Repr::emit;wire::Ipv4Packet::fill_checksum bounds=protocol_(all_256),_hop_limit,_payload_length_0..=65515,_destination_bytes_2..4_symbolic_(3_words)
@@ -660,10 +660,10 @@ mod v_wire_cksum {
         emit_valid_echo(true, 0, 0xff00, 0, 0, 4, false);
     }
 
-    // @harness props=C08 cfg=KW tier=q to=600 mem=4 unwind=8 opts=nomem covers=1 funcs=wire::Icmpv6Repr::emit;wire::Icmpv6Packet::fill_checksum bounds=echo_request/reply,_data_length_0..=5_symbolic;_ident,_seq_and_data_0..4_symbolic
+    // @harness props=C08 cfg=KW tier=q to=600 mem=4 unwind=8 opts=nomem covers=1 funcs=wire::Icmpv6Repr::emit;wire::Icmpv6Packet::fill_checksum bounds=echo_request/reply,_data_length_0..=5_symbolic;_ident_and_data_0..4_symbolic
     #[kani::proof]
     pub(crate) fn emit_valid_icmpv6_w5() {
-        emit_valid_echo(true, 0, 0, 0xf, 0x0f, 5, true);
+        emit_valid_echo(true, 0, 0, 0x3, 0x0f, 5, true);
     }
 
     fn emit_valid_udp(v6: bool, smask: u32, dmask: u32, fmask: u32, pmask: u32, plen_max: usize, plen_sym: bool) {
@@ -935,6 +935,12 @@ mod v_wire_cksum {
             17 => (udp_emit(v6, &src, &dst, fmask, 0, 4, &caps, &mut small), 6),
             _ => (tcp_emit(v6, &src, &dst, fmask, 0, 0, 0, false, 4, &caps, &mut big), 16),
         };
+        if proto == 6 {
+            // data offset 5, reserved bits clear.  `header_len()` reads bytes 12 and 13 as one
+            // word, so the data offset is concrete for the symbolic executor only while `corrupt`
+            // touches neither of them.
+            assert!(big[12] == 0x50, "prop:c08_harness_shape_tcp_data_offset");
+        }
         let seg: &mut [u8] = if proto == 6 { &mut big[..n] } else { &mut small[..n] };
         if arbitrary_field {
             seg[cks] = kani::any();
@@ -984,16 +990,16 @@ mod v_wire_cksum {
         rx_l4(17, true, 0, 0, 0x3, false, upto(12));
     }
 
-    // @harness props=C08 cfg=KW tier=q to=600 mem=4 unwind=8 opts=nomem covers=2 funcs=wire::TcpRepr::parse;wire::TcpPacket::verify_checksum bounds=emitted_segment_(source_port_symbolic,_no_options,_4_payload_bytes);_non-zero_XOR_mask_on_1_or_2_bytes_at_symbolic_positions_0..24_except_12_(data_offset:_see_reject_invalid_tcp4_offset)
+    // @harness props=C08 cfg=KW tier=q to=600 mem=4 unwind=8 opts=nomem covers=2 funcs=wire::TcpRepr::parse;wire::TcpPacket::verify_checksum bounds=emitted_segment_(source_port_symbolic,_no_options,_4_payload_bytes);_non-zero_XOR_mask_on_1_or_2_bytes_at_symbolic_positions_0..24_except_12,_13_(data_offset_and_flags_are_read_as_one_word:_see_reject_invalid_tcp4_offset)
     #[kani::proof]
     pub(crate) fn reject_invalid_tcp4() {
-        rx_l4(6, false, 0, 0, 0x3, false, upto(24) & !(1 << 12));
+        rx_l4(6, false, 0, 0, 0x3, false, upto(24) & !(3 << 12));
     }
 
-    // @harness props=C08 cfg=KW tier=q to=600 mem=4 unwind=8 opts=nomem covers=2 funcs=wire::TcpRepr::parse;wire::TcpPacket::verify_checksum bounds=emitted_segment_(source_port_symbolic,_no_options,_4_payload_bytes);_non-zero_XOR_mask_on_1_or_2_bytes_at_symbolic_positions_0..24_except_12
+    // @harness props=C08 cfg=KW tier=q to=600 mem=4 unwind=8 opts=nomem covers=2 funcs=wire::TcpRepr::parse;wire::TcpPacket::verify_checksum bounds=emitted_segment_(source_port_symbolic,_no_options,_4_payload_bytes);_non-zero_XOR_mask_on_1_or_2_bytes_at_symbolic_positions_0..24_except_12,_13
     #[kani::proof]
     pub(crate) fn reject_invalid_tcp6() {
-        rx_l4(6, true, 0, 0, 0x3, false, upto(24) & !(1 << 12));
+        rx_l4(6, true, 0, 0, 0x3, false, upto(24) & !(3 << 12));
     }
 
     // @harness props=C08 cfg=KW tier=q to=600 mem=4 unwind=8 opts=nomem covers=2 funcs=wire::Icmpv4Repr::parse;wire::Icmpv4Packet::verify_checksum bounds=emitted_echo_request_(ident,_seq_symbolic,_4_data_bytes);_arbitrary_checksum_field
@@ -1033,10 +1039,10 @@ mod v_wire_cksum {
     }
 
     // data-offset byte corrupted (the payload may become options), optionally compensated in the checksum field
-    // @harness props=C08 cfg=KW tier=q to=600 mem=6 unwind=8 opts=nomem covers=2 funcs=wire::TcpRepr::parse;wire::TcpPacket::verify_checksum;wire::TcpOption::parse bounds=emitted_segment_(source_port_symbolic,_no_options,_4_payload_bytes);_non-zero_XOR_mask_on_1_or_2_of_the_bytes_12_(data_offset),_16,_17_(checksum_field)
+    // @harness props=C08 cfg=KW tier=q to=600 mem=6 unwind=8 opts=nomem covers=2 funcs=wire::TcpRepr::parse;wire::TcpPacket::verify_checksum;wire::TcpOption::parse bounds=emitted_segment_(source_port_symbolic,_no_options,_4_payload_bytes);_non-zero_XOR_mask_on_1_or_2_of_the_bytes_12,_13_(data_offset,_flags),_16,_17_(checksum_field)
     #[kani::proof]
     pub(crate) fn reject_invalid_tcp4_offset() {
-        rx_l4(6, false, 0, 0, 0x3, false, (1 << 12) | (1 << 16) | (1 << 17));
+        rx_l4(6, false, 0, 0, 0x3, false, (3 << 12) | (3 << 16));
     }
 
     // ICMPv6 type byte corrupted: `Icmpv6Repr::parse` with a symbolic message type explores every
